@@ -2,7 +2,7 @@
 From Coq Require Import String.
 From Coq Require Import List NArith ZArith Bool Lia.
 From Verif Require Import Zip.Bytes Zip.BytesProofs Zip.Model Zip.PathProofs Zip.ZipProofs Zip.FsProofs
-  Zip.UnzipProofs Zip.CollisionProofs.
+  Zip.UnzipProofs Zip.CollisionProofs Zip.ElemProofs.
 Import ListNotations.
 Local Open Scope N_scope.
 
@@ -116,6 +116,17 @@ Section Oracle.
   Proof.
     intros zs es e I X. destruct (checked_err (check_zip zs es)) eqn:C; auto.
     destruct (accepted_entry zs es e C I) as [s [v [s' OK]]]. exfalso. apply (eo_cue_mod _ _ _ _ _ _ OK). exact X.
+  Qed.
+
+  (* a cue.mod (any case) as a non-first element of a name: nested module *)
+  Theorem hostile_nested_cue_mod_rejected : forall zs es e pre x suf, In e es ->
+    split_slash (entry_name e) = pre ++ x :: suf -> pre <> [] -> ascii_eqfold x s_cue_mod = true ->
+    checked_err (check_zip zs es) = true.
+  Proof.
+    intros zs es e pre x suf I SP NP EQ. destruct (checked_err (check_zip zs es)) eqn:C; auto.
+    pose proof (accepted_name_safe zs es e C I) as P.
+    rewrite <- C. eapply hostile_cue_mod_rejected; eauto.
+    eapply checked_nested_cue_mod; eauto.
   Qed.
 
   (* no module file *)
